@@ -70,7 +70,25 @@ def gen_mixed(rng, depth=1):
     return node
 
 
+def small_scope_cases(ctx):
+    """thorough tier: every formula with at most two connectives over the leaves a, b (props/c04.small_scope)"""
+    if ctx.quick or ctx.search:
+        return
+    from props.c04 import small_scope
+    for a in small_scope():
+        try:
+            o = build(a)
+        except Exception:
+            continue
+        if is_var(o) or not well_formed(snap(o)) or o.errors():
+            continue
+        ctx.tags["small-scope"] += 1
+        do_case(ctx, {"ast": a})
+    ctx.notes.append("exhaustive small scope: every formula with at most two connectives over two boolean leaves")
+
+
 def run(ctx):
+    small_scope_cases(ctx)
     n_models = (150 if ctx.quick else 1200) * (3 if ctx.search else 1)
     for _ in range(n_models):
         a, o, t = gen_valid(ctx.rng, ctx.quick, wide_p=0.02)
